@@ -336,6 +336,22 @@ def units():
         s, c = sc["_sincos"](ctx.ev, z3.RealVal("0.5") * r)
         return [u.x * u.x + u.y * u.y + u.z * u.z == 1], {"axis_angle_quaternion": A(Q.r == c, Q.i == s * u.x, Q.j == s * u.y, Q.k == s * u.z)}
     U.mlemma("q_rotate_axis_angle", "real", qrot)
+
+    def qslerp(ctx):
+        # q and -q are the same rotation: slerp must not depend on the sign its first argument is stored with (except for exactly
+        # orthogonal quaternions, where both arcs are equally short). This is a 30 s counterexample SEARCH, not a proof: z3 does
+        # not decide the lemma on the unchanged code (sqrt side conditions + merged acos/sin branch: unknown after minutes; a CBMC
+        # term-identity formulation did not finish either), but it refutes a wrong choice of hemisphere in well under a second and the
+        # model replays natively.
+        a = ctx.new("quatf", "a"); b = ctx.new("quatf", "b"); f = ctx.new("float", "f")
+        na = ctx.call("q_neg", a)
+        s1 = ctx.call("q_slerp", f, a, b)
+        s2 = ctx.call("q_slerp", f, na, b)
+        d = a.r * b.r + a.i * b.i + a.j * b.j + a.k * b.k
+        hyp = [a.r * a.r + a.i * a.i + a.j * a.j + a.k * a.k == 1, b.r * b.r + b.i * b.i + b.j * b.j + b.k * b.k == 1, f >= 0, f <= 1,
+               z3.Or(d > z3.RealVal("0.9996"), d < z3.RealVal("-0.9996"))]
+        return hyp, {"slerp_is_independent_of_the_sign_its_first_argument_is_stored_with__small_angle_region": A(s1.r == s2.r, s1.i == s2.i, s1.j == s2.j, s1.k == s2.k)}
+    U.mlemma("q_slerp_sign_symmetry_search", "real", qslerp, timeout=30, refute_only=True)
     return [U]
 
 
@@ -344,6 +360,6 @@ META = dict(
     level_text="The algebraic content of C06 is decided for all real inputs: each lemma (M*adj(M)=det*I, M*inverse(M)=I, rcp(A)*A=id, (A*B)(p)=A(B(p)), det multiplicative, transposed/rows, xfmPoint/xfmVector/xfmNormal = full map / linear part / inverse transpose, rotate(u,angle) proper rotation about u by that angle incl. sense, matrix-from-quaternion = quaternion rotation and orthonormal, quaternion-from-matrix in each of its four branches recovers +-q, yaw/pitch/roll = qY*qX*qZ, scale/translate/rotate-about-point/frame/lookat axes, origin, orthonormality, orientation) is a z3 proof over VCs generated by symbolic evaluation of the functions extracted from /repo on this run. A sign, index or operand slip turns a polynomial identity into a non-identity and is refuted with a model that is replayed on the real code.",
     level_note="ASSUMPTION: machine floating-point arithmetic treated as real arithmetic (rounding, the condition-number tolerance of the statement, overflow/NaN are not modelled). rcp/rsqrt (SSE estimate + Newton-Raphson) are modelled as exact 1/x and 1/sqrt(x); sin/cos as symbols with s^2+c^2=1. Trusted: clang AST, cxx2c, lib/mathvc.py symbolic evaluator, z3 5.1 (fallback z3 4.8 / cvc5).",
     assumptions=["float arithmetic = real arithmetic", "rcp(x)=1/x, rsqrt(x)=1/sqrt(x) exactly", "sin/cos: only s^2+c^2=1 is used"],
-    unverified=["orthogonal() (99-iteration Newton loop)", "slerp (acos/sin branch)", "tolerances / conditioning", "double and padded (vec3fa) instantiations", "clamp(LinearSpace3)"],
+    unverified=["orthogonal() (99-iteration Newton loop)", "slerp (only a counterexample search for its choice of hemisphere in the small-angle region; no proof)", "tolerances / conditioning", "double and padded (vec3fa) instantiations", "clamp(LinearSpace3)"],
     trusted_extra=["lib/mathvc.py symbolic evaluator", "z3 5.1.0 (python API), z3 4.8.12, cvc5 1.0 as fallback portfolio"],
 )
